@@ -1,5 +1,5 @@
 """C02 — a 'safe' or 'unreachable' assertion verdict is never wrong."""
-import os, re, random, vlib, cfgprog, bwdcommon
+import os, re, random, vlib, cfgprog, bwdcommon, C02_inter
 
 def run(rep, tier, seed):
     rep.cov["trusted_base"] = [
@@ -18,6 +18,8 @@ def run(rep, tier, seed):
                         opts={"asserts": True, "fixed_opts": [("check", 1)]})
     vlib.run_stream(rep, "fwd-verdicts", "fwditv", "fwditv", lines, oracle=cfgprog.oracle_verdicts,
                     nontrivial=cfgprog.nontrivial_verdicts, key=lambda l: "program")
+    # verdicts of the checker interleaved with the inter-procedural analyses: oracle only
+    C02_inter.streams(rep, tier, seed)
     # forward+backward analyzer: oracle only
     lines2 = bwdcommon.gen(seed + 22, 200 if tier == "quick" else 6000, fb=True)
     hexe, err = vlib.build_harness("bwditv")
